@@ -338,7 +338,7 @@ META = {
                         'c09.red-average'],
     'required_covers': ['nontrivial', 'dropped', 'red-dropped', 'red-accepted', 'monitor-excluded-in-service', 'two-instances'],
     'bounds': {'quick': 'n=3 packets per workload (monitor: 2 packets, 2 samples); rates {0,8,64}; qlimit symbolic Int>=1 '
-                        'or None; sizes Int>=1, gaps >=0 unbounded; RED thresholds (1,3,4)/(100,300,400), maxp 1/2, w in {1,2}, avg0 symbolic',
+                        'or None; sizes Int>=1, gaps >=0 unbounded; RED thresholds (1,3,4)/(100,300,400), maxp 1/2, w in {1,2}, avg0 symbolic; two ports side by side; RED per-hop stamp; two-burst workloads of 6 packets',
                'thorough': 'n=5-6 (monitor 3/3, RED 4-5), w in {1,2,9}, rates {0,8}'},
     'assumptions': ['"waiting to start transmission" is read from the port\'s public store.items immediately before put '
                     '(same-instant arrivals into an idle port count as waiting)',
